@@ -128,9 +128,11 @@ def check_recipe(r, tier, seed, rep=None, want=None):
                         break
         try:
             hf = autodiff.compile_hessian(c.e, V)
+            hname = hf.__name__
+            hf = InPlace(hf)
             if rep:
                 rep.transitions += 1
-                rep.outcomes["path:" + hf.__name__] += 1
+                rep.outcomes["path:" + hname] += 1
         except Exception as ex:
             fails.add("exception:compile_hessian:" + type(ex).__name__, V=vlab, msg=str(ex)[:200])
             continue
@@ -152,7 +154,7 @@ def check_recipe(r, tier, seed, rep=None, want=None):
                 fails.add("hessian-not-symmetric", V=vlab, x=x, got=got)
                 break
             if not close(got, exp, err, REL_D).all():
-                fails.add("compiled-hessian-mismatch:" + hf.__name__, V=vlab, order=vn, x=x, got=got, expected=exp)
+                fails.add("compiled-hessian-mismatch:" + hname, V=vlab, order=vn, x=x, got=got, expected=exp)
                 break
     return fails
 
